@@ -230,6 +230,14 @@ def m_wrapping(I, st, fr, args, path, gargs, t):
         plo, phi = st.range_of(p)
         if plo is not None and plo >= 0 and st.relational_upper(p, rhi):
             return I.mk(st, ty, p, 0, rhi)
+    if modulus <= 2 ** 16:
+        # byte / short arithmetic (character classification idioms like `c.wrapping_sub(b'0') < 10`): at most one wrap either way - decide which
+        plo, phi = st.range_of(p)
+        if plo is not None and phi is not None and plo >= rlo - modulus and phi <= rhi + modulus:
+            r_ = range_split(st, p, rlo, rhi)
+            if r_ == 'in':
+                return I.mk(st, ty, p)
+            return I.mk(st, ty, padd(p, pconst(modulus if r_ == 'below' else -modulus)))
     r = st.fresh(ty, tag='wrapping')
     ls = plinear_single(r.p)
     if ls is not None:
